@@ -240,6 +240,10 @@ class Model(object):
             # simply a value of the wrong type
             classes.append("wrong-datatype")
         if classes:
+            if tuple(value) == (NULL_ITEM,) and "wrong-datatype" not in classes:
+                # NULL is also the relinquish request: a device may call it a value of the wrong type even
+                # where the datatype admits NULL
+                classes.append("wrong-datatype")
             return ("refuse", tuple(classes))
         if tuple(value) == (NULL_ITEM,):
             return ("either", "NULL is a value of this datatype and also the relinquish request")
